@@ -13,6 +13,7 @@ import (
 
 	"github.com/trustbloc/sidetree-core-go/pkg/api/operation"
 	"github.com/trustbloc/sidetree-core-go/pkg/canonicalizer"
+	"github.com/trustbloc/sidetree-core-go/pkg/encoder"
 	"github.com/trustbloc/sidetree-core-go/pkg/hashing"
 	"github.com/trustbloc/sidetree-core-go/pkg/patch"
 	"github.com/trustbloc/sidetree-core-go/pkg/versions/1_0/model"
@@ -119,6 +120,12 @@ func (p *Parser) validateMultihash(mh, alias string) error {
 
 	if !hashing.IsComputedUsingMultihashAlgorithms(mh, p.MultihashAlgorithms) {
 		return fmt.Errorf("%s is not computed with the required hash algorithms: %d", alias, p.MultihashAlgorithms)
+	}
+
+	// the decoder tolerates line breaks and non-zero unused trailing bits: only the canonical spelling is well formed
+	// (hashes are compared as strings, so two spellings of one hash would count as different commitments)
+	if decoded, err := encoder.DecodeString(mh); err != nil || encoder.EncodeToString(decoded) != mh {
+		return fmt.Errorf("%s is not a canonically encoded multihash", alias)
 	}
 
 	return nil
